@@ -68,6 +68,12 @@ CorpusEv ==
                     /\ E.lines = MecabLines(E.extra.toks)
                     /\ E.examples = (IF E.extra.toks = <<>> THEN <<>> ELSE <<E.extra.toks>>))))
 
+(* C19: bytes that are not valid UTF-8 (a file cut inside a multi-byte character, a line in another
+   encoding) are a malformed input: an error, never the examples read so far *)
+CorpusBytesEv ==
+   /\ Is("corpus_bytes")
+   /\ A("C19", "undecodable-bytes-are-reported-as-an-error", ~E.valid_utf8 => ~E.ok)
+
 (* C20 *)
 MecabEv ==
    /\ Is("mecab")
@@ -101,7 +107,7 @@ CliCorpusEv ==
             /\ A("C19", "evaluate-accepts-tokenizer-output", E.eval_ok)
             /\ (n > 0 => A("C19", "tokenizer-agrees-with-itself", E.precision = "1" /\ E.recall = "1" /\ E.f1 = "1")))
 
-Next == RewriteEv \/ ExpandEv \/ FsetEv \/ CorpusEv \/ MecabEv \/ CliCorpusEv
+Next == RewriteEv \/ ExpandEv \/ FsetEv \/ CorpusEv \/ CorpusBytesEv \/ MecabEv \/ CliCorpusEv
 Spec == Init /\ [][Next]_l
 Accepted ==
    LET d == TLCGet("stats").diameter IN
